@@ -429,3 +429,26 @@ def m_deserialize(c):
     val = c.st.fresh(ty, c.st.fresh_name('decoded'))
     c.st.notes.append(('decode_garbage', val))
     return ok(val)
+
+
+@model('BufReader::seek_relative')
+def m_seek_relative(c):
+    h = deref(c.st, c.args[0])
+    off = c.args[1]
+    lo = -h.pos
+    hi = len(h.f.data) - h.pos
+    ov = z3.simplify(off.v)
+    if z3.is_bv_value(ov):
+        k = ov.as_signed_long()
+    else:
+        inr = z3.And(off.v >= lo, off.v <= hi)
+        if not c.st.branch(inr, 'seek in range'):
+            raise Unsupported('seek_relative outside the file')
+        cands = [x for x in range(lo, hi + 1) if c.st.feasible(off.v == x)]
+        i = c.st.choose(len(cands), 'seek offset')
+        c.st.assume(off.v == cands[i])
+        k = cands[i]
+    if h.pos + k < 0:
+        return io_err(ERRKIND['InvalidInput'])
+    h.pos += k
+    return ok(UNIT)
